@@ -33,7 +33,20 @@ GRAPH_NAMES = [DEFAULT, I(P[3] + "g"), L("g", None, DTS[2])]
 
 
 def flat_statements() -> list:
-    return list(itertools.product(TERMS, repeat=3))
+    return list(itertools.product(TERMS, repeat=3)) + mixed_statements()
+
+
+def mixed_statements() -> list:
+    """A quoted triple over four IRIs (three prefixes) next to ordinary terms: the quoted triple
+    and the rest of the row compete for the same tables."""
+    out = []
+    for q in itertools.product(IRIS[:4], repeat=3):
+        qt = T.T(*q)
+        for a in (IRIS[0], IRIS[1], IRIS[5]):
+            for b in (IRIS[1], IRIS[4]):
+                out.append((a, b, qt))
+                out.append((qt, b, a))
+    return out
 
 
 def nested_statement(k: int) -> tuple:
@@ -295,7 +308,7 @@ def run(ctx) -> None:
         ok_or_refused=merged["counters"].get("ok_or_refused", 0),
         samples=merged["samples"] or [{"statement": sts[1]}],
         rule=(
-            "all 9^3 statements over 6 IRIs (4 prefixes + the empty prefix) + 3 typed literals, and quoted triples "
+            "all 9^3 statements (plus 768 with a quoted triple as subject or object) over 6 IRIs (4 prefixes + the empty prefix) + 3 typed literals, and quoted triples "
             "nested to depth 2 with 27 IRI leaves over k=9..27 names, x every preset "
             "(names{8,12,20,26} x prefixes{0..3} x datatypes{0..3}) in which an enabled table is "
             f"smaller than the statement needs x histories of length<={hist_len} x three stream "
